@@ -67,6 +67,12 @@ class Trees(object):
                 self.applicable = []
                 d = self._copy("probe")
                 for slug, path in list_fixes():
+                    # already in the tree (the reverse patch applies cleanly)?  then it names no deviation of this tree;
+                    # an insertion-only patch would otherwise "apply" a second time
+                    r = subprocess.run(["patch", "-p1", "-s", "-f", "-R", "--dry-run", "--fuzz=0", "-r", "-", "-i", path],
+                                       cwd=d, stdout=subprocess.PIPE, stderr=subprocess.STDOUT)
+                    if r.returncode == 0:
+                        continue
                     p = subprocess.run(["patch", "-p1", "-s", "-f", "-N", "--dry-run", "--fuzz=3", "-r", "-", "-i", path],
                                        cwd=d, stdout=subprocess.PIPE, stderr=subprocess.STDOUT)
                     if p.returncode == 0:
